@@ -672,39 +672,46 @@ func (w *world) connect(s Step, disp *Step) {
 // client that gave up on its own (e.g. it noticed the missing key) may
 // nevertheless have been served.
 func (w *world) awaitAfterClientError(lc *liveConn, cmd string, disp *Step) (outcome, *handlerObs) {
-	select {
-	case o := <-w.hch:
-		lc.handlers++
-		w.res.Handlers++
-		w.res.ByVia[lc.via]++
-		b := o.isEnc
-		lc.encSeen = &b
-		w.ev(Event{E: "Handler", Cmd: cmdName[o.cmd], Reg: o.reg, EncReal: o.isEnc, AuthFlag: o.authFlag,
-			EncFlag: o.encFlag, SrvUser: o.user, Resumed: o.resumed, Kind: lc.kind, SessKind: lc.sessKind})
-		w.dev("connect %s client %s: the client's handshake failed but the server ran the handler", cmd, lc.kind)
-		// the client's stream is out of step now; no follow-ons on this connection
-		lc.refused = true
-		lc.probed = true
-		return outHandler, &o
-	case <-lc.done:
-		lc.returned = true
-	case <-time.After(200 * time.Millisecond):
-		// the server is still waiting for a client that has given up
+	// The client sends nothing more: half-close its sending direction. A server
+	// that refused has closed already; a server that went on regardless (it does
+	// not wait for the client) can still write, runs whatever it runs, then reads
+	// end-of-file and returns. Either way ServeConn comes back promptly.
+	lc.cli.CloseWrite()
+	if !lc.returned {
+		select {
+		case <-lc.done:
+			lc.returned = true
+		case <-time.After(WaitLong):
+			w.res.Broken = append(w.res.Broken, "ServeConn did not return after the client gave up")
+		}
 	}
-	select {
-	case o := <-w.hch:
-		lc.handlers++
-		w.res.Handlers++
-		w.res.ByVia[lc.via]++
-		w.ev(Event{E: "Handler", Cmd: cmdName[o.cmd], Reg: o.reg, EncReal: o.isEnc, AuthFlag: o.authFlag,
-			EncFlag: o.encFlag, SrvUser: o.user, Resumed: o.resumed, Kind: lc.kind, SessKind: lc.sessKind})
-		lc.refused, lc.probed = true, true
-		return outHandler, &o
-	default:
-	}
-	w.res.Refusals++
 	lc.refused = true
 	lc.probed = true // the client cannot continue on a failed handshake
+	var first *handlerObs
+	for {
+		select {
+		case o := <-w.hch:
+			lc.handlers++
+			w.res.Handlers++
+			w.res.ByVia[lc.via]++
+			b := o.isEnc
+			lc.encSeen = &b
+			w.ev(Event{E: "Handler", Cmd: cmdName[o.cmd], Reg: o.reg, EncReal: o.isEnc, AuthFlag: o.authFlag,
+				EncFlag: o.encFlag, SrvUser: o.user, Resumed: o.resumed, Kind: lc.kind, SessKind: lc.sessKind})
+			w.dev("connect %s client %s: the client's handshake failed but the server ran the handler", cmd, lc.kind)
+			if first == nil {
+				oo := o
+				first = &oo
+			}
+			continue
+		default:
+		}
+		break
+	}
+	if first != nil {
+		return outHandler, first
+	}
+	w.res.Refusals++
 	return outClosed, nil
 }
 
